@@ -72,6 +72,7 @@ pub struct CEmit {
     pub client: usize,
     pub sender: Entity,
     pub refent: Option<Entity>,
+    pub refent2: Option<Entity>,
     pub expect: bool,
     pub emitted: bool,
     pub session: u32,
@@ -1133,22 +1134,24 @@ impl Sim {
                     self.squeue.push(st.clone());
                 }
             }
-            Step::EmitC { client, kind, refslot } => {
+            Step::EmitC { client, kind, refslot, refslot2 } => {
                 if !self.cfg.events || client >= nclients || !self.clients[client].connected {
                     return;
                 }
                 self.seq += 1;
                 let seq = self.seq;
                 let sref = self.slots.get(refslot).copied().flatten();
+                let sref2 = if kind == CK::Trig { refslot2.and_then(|s| self.slots.get(s).copied().flatten()).filter(|e| Some(*e) != sref) } else { None };
                 let authorized = self.authorized(client);
                 let c = &mut self.clients[client];
-                c.app.world_mut().resource_mut::<CEmitQueue>().0.push((kind, seq, sref));
+                c.app.world_mut().resource_mut::<CEmitQueue>().0.push((kind, seq, sref, sref2));
                 self.cemits.push(CEmit {
                     kind,
                     seq,
                     client,
                     sender: c.id,
                     refent: None,
+                    refent2: None,
                     expect: false,
                     emitted: false,
                     session: c.session,
@@ -1741,10 +1744,11 @@ impl Sim {
             }
         }
         let emitted = std::mem::take(&mut c.app.world_mut().resource_mut::<CEmitLog>().0);
-        for (seq, expect, refent) in emitted {
+        for (seq, expect, refent, refent2) in emitted {
             if let Some(em) = self.cemits.iter_mut().find(|e| e.seq == seq) {
                 em.expect = expect;
                 em.refent = refent;
+                em.refent2 = refent2;
                 em.emitted = true;
             }
         }
